@@ -62,11 +62,15 @@ class T(TV):
 
 
 class Mp(TV):
-    """map; intkeys: the metamodel key type is `integer` (JSON keys are their decimal text, Python keys are ints)"""
-    __slots__ = ("items", "intkeys")
+    """map; intkeys: the metamodel key type is `integer` (JSON keys are their decimal text, Python keys are ints);
+    keyenum: the key type is a reference to that enumeration (JSON keys are the text of its values)"""
+    __slots__ = ("items", "intkeys", "keyenum")
 
-    def __init__(self, items: Dict[str, TV], intkeys: bool = False):
-        self.items, self.intkeys = items, intkeys
+    def __init__(self, items: Dict[str, TV], intkeys: bool = False, keyenum: Optional[str] = None):
+        self.items, self.intkeys, self.keyenum = items, intkeys, keyenum
+
+    def like(self, items: Dict[str, TV]) -> "Mp":
+        return Mp(items, self.intkeys, self.keyenum)
 
 
 class U(TV):
@@ -93,7 +97,7 @@ def to_json(tv: TV) -> Any:
     if isinstance(tv, T):
         return ["T", [to_json(x) for x in tv.items]]
     if isinstance(tv, Mp):
-        return ["M", {k: to_json(v) for k, v in tv.items.items()}, tv.intkeys]
+        return ["M", {k: to_json(v) for k, v in tv.items.items()}, tv.intkeys, tv.keyenum]
     if isinstance(tv, U):
         return ["U", tv.occ, tv.idx, tv.n, to_json(tv.child)]
     if isinstance(tv, N):
@@ -114,7 +118,7 @@ def from_json(j: Any) -> TV:
     if tag == "T":
         return T([from_json(x) for x in j[1]])
     if tag == "M":
-        return Mp({k: from_json(v) for k, v in j[1].items()}, bool(j[2]) if len(j) > 2 else False)
+        return Mp({k: from_json(v) for k, v in j[1].items()}, bool(j[2]) if len(j) > 2 else False, j[3] if len(j) > 3 else None)
     if tag == "U":
         return U(j[1], j[2], j[3], from_json(j[4]))
     if tag == "N":
@@ -489,7 +493,8 @@ class Gen:
             )
             kt = self.m.resolve_alias(t["key"])
             return Mp({key: self.type(t["value"], vl, depth + 1, cri if i == 0 else None) for i, key in enumerate(keys)},
-                      intkeys=(kt["kind"] == "base" and kt["name"] == "integer"))
+                      intkeys=(kt["kind"] == "base" and kt["name"] == "integer"),
+                      keyenum=kt["name"] if kt["kind"] == "reference" and kt["name"] in self.m.enums else None)
         if k == "tuple":
             return T([self.type(it, f"{locus}|{i}", depth + 1, self._next(ri, f"{locus}|{i}")) for i, it in enumerate(t["items"])])
         if k == "or":
@@ -554,7 +559,14 @@ class Gen:
         if kt["kind"] == "base" and kt["name"] in ("DocumentUri", "URI"):
             return uris
         if kt["kind"] == "base" and kt["name"] == "integer":
-            return st.integers(-5, 5).map(str)
+            return st.one_of(st.integers(-5, 5), st.sampled_from([INT_MIN, INT_MAX])).map(str)
+        if kt["kind"] == "reference" and kt["name"] in self.m.enums:
+            e = self.m.enums[kt["name"]]
+            declared = st.sampled_from([str(v["value"]) for v in e["values"]])
+            if not self.m.enum_open(kt["name"], self.cfg.python_custom):
+                return declared
+            base = e["type"]["name"]
+            return st.one_of(declared, strings if base == "string" else (integers if base == "integer" else uintegers).map(str))
         return strings
 
     def enum(self, name: str) -> P:
